@@ -1,5 +1,80 @@
 import Sigc.Model
-import Sigc.Spec
-/-! property theorems for C18 (being written) -/
+import Sigc.Lemmas.Basic
+import Sigc.Lemmas.Frames
+/-!
+# C18 — signals chain through make_slot(); a dying trackable_signal unhooks itself
+(first theorems; more in Sigc/Lemmas/Step*.lean)
+-/
 namespace Sigc.C18
+open Sigc.Model
+
+/-- invoking a `make_slot()` forwarder emits the target signal object with the same argument and
+    yields that emission's outcome and result, for every program and fuel -/
+theorem forwarder_emits_target (f : Nat) (P : Prog) (s : St) (o arg g : Nat) (ts : List Nat) (h : Handle)
+    (hh : handleByObj s o = some (g, h)) :
+    invokeFun (f+1) P s (.fwd o ts) arg = emitImpl f P s h.fl h.impl arg .sum := by
+  rw [invokeFun]
+  simp [hh]
+
+/-- a forwarder refers to the trackable base of its target exactly when the target is a trackable_signal -/
+theorem forwarder_tracks_iff_trackable (s s' : St) (g : Nat) (h : Handle) (isVoid : Bool) (fn : Fun)
+    (hg : aget s.G g = some h) (hm : mkFun s isVoid (.fwd g) = .ok (fn, s')) :
+    fn = .fwd h.obj (if h.fl.isTrackable then [h.trk] else []) ∧
+    fn.tracks = (if h.fl.isTrackable then [h.trk] else []) := by
+  simp only [mkFun, hg] at hm
+  split at hm
+  · cases hm
+  · simp at hm
+    obtain ⟨rfl, _⟩ := hm
+    exact ⟨rfl, rfl⟩
+
+/-- copy construction gives the copy its own, fresh trackable identity -/
+theorem cpG_fresh_trackable (s s' : St) (r : String) (j i im : Nat) (h0 : Handle)
+    (hi : aget s.G i = some h0) (hj : aget s.G j = none) (himpl : h0.impl = some im)
+    (h : stepSimple s (.cpG j i) = some (s', r)) :
+    ∃ hd, aget s'.G j = some hd ∧ hd.trk = s.next + 1 ∧ hd.obj = s.next ∧ hd.impl = some im ∧ hd.fl = h0.fl := by
+  simp only [stepSimple, hi, hj, ensureImpl, himpl] at h
+  simp [St.fresh, hi] at h
+  obtain ⟨rfl, _⟩ := h
+  exact ⟨{ obj := s.next, fl := h0.fl, impl := some im, trk := s.next + 1, lvl := h0.lvl }, by simp, rfl, rfl, rfl, rfl⟩
+
+/-- destroying a trackable_signal object invalidates every slot variable holding a forwarder to it -/
+theorem delG_invalidates_forwarders (s s' : St) (r : String) (g : Nat) (h0 : Handle)
+    (hg : aget s.G g = some h0) (ht : h0.fl.isTrackable = true)
+    (h : stepSimple s (.delG g) = some (s', r)) :
+    r = "ok" ∧ ∀ i v, aget s'.S i = some v → v.slot.tracksObj h0.trk = false := by
+  simp only [stepSimple, hg, ht] at h
+  simp at h
+  obtain ⟨rfl, rfl⟩ := h
+  refine ⟨rfl, ?_⟩
+  intro i v hv
+  have key : ∀ (s0 : St) i v, aget (invalidateTrackable s0 h0.trk).S i = some v → v.slot.tracksObj h0.trk = false := by
+    intro s0 i v h
+    unfold invalidateTrackable at h
+    simp only [foldl_invalidateCell_S] at h
+    rw [aget_amap] at h
+    cases hv0 : aget s0.S i with
+    | none => simp [hv0] at h
+    | some v0 =>
+      simp [hv0] at h
+      subst h
+      by_cases hx : v0.slot.tracksObj h0.trk = true
+      · simp only [hx, if_true]
+        unfold SlotB.invalidate
+        cases hr : v0.slot.rep <;> simp [SlotB.tracksObj, hr]
+      · simpa [hx] using hx
+  cases himpl : h0.impl with
+  | none =>
+    simp [himpl] at hv
+    exact key s i v hv
+  | some im =>
+    simp only [himpl, gcImpl_S] at hv
+    exact key s i v hv
+
+example : invokeFun 2 { bodies := [], top := [] }
+    { G := [(0, { obj := 4, fl := .I, impl := none, trk := 5, lvl := 0 })] } (.fwd 4 []) 3
+      = some ({ G := [(0, { obj := 4, fl := .I, impl := none, trk := 5, lvl := 0 })] }, .ok, 0) := by
+  rw [forwarder_emits_target 1 _ _ 4 3 0 [] { obj := 4, fl := .I, impl := none, trk := 5, lvl := 0 } (by simp [handleByObj])]
+  rw [emitImpl]
+
 end Sigc.C18
